@@ -241,3 +241,19 @@ VARIANTS += [
     dict(prop="C10", name="info-length-not-checked", expect="BOUNDS|report::hybrid_info::HybridConversionInfo::from_bytes",
          edits=[dict(file=HIF, find="        if rest.len() != FIXED_LEN {", replace="        if rest.len() > FIXED_LEN {")]),
 ]
+
+VARIANTS += [
+    # ---------------- C12 ----------------
+    dict(prop="C12", name="epsilon-lt-zero", expect="GUARD-params|NoiseParams::new:epsilon",
+         edits=[dict(file=DPF, find="        if epsilon <= 0.0 {", replace="        if epsilon < 0.0 {")]),
+    dict(prop="C12", name="delta-ne-zero", expect="GUARD-params|NoiseParams::new:delta",
+         edits=[dict(file=DPF, find="        if delta <= 0.0 {", replace="        if delta != 0.0 {")]),
+    dict(prop="C12", name="modulus-all-ones", expect="RANGE-modulus|divisor-is-power-of-two",
+         edits=[dict(file=DPF, find="        let modulus = 1_u64 << bit_size;", replace="        let modulus = if bit_size < 32 { 1_u64 << bit_size } else { u64::from(u32::MAX) };")]),
+    dict(prop="C12", name="role-twice", expect="WIRE-passes|laplace:three-distinct-roles-and-steps",
+         edits=[dict(file=DPF, find="                noised_output,\n                Role::H3,\n                &noise_params,", replace="                noised_output,\n                Role::H2,\n                &noise_params,")]),
+    dict(prop="C12", name="wrong-generator", expect="WIRE-passes|direction-to-generator",
+         edits=[dict(file=DPF, find="                Direction::Left => &mut right,\n                Direction::Right => &mut left,", replace="                Direction::Left => &mut left,\n                Direction::Right => &mut right,")]),
+    dict(prop="C12", name="oprf-sensitivity-ge", expect="GUARD-params|OPRFPaddingDp::new:sensitivity",
+         edits=[dict(file="ipa-core/src/protocol/ipa_prf/oprf_padding/insecure.rs", find="        if new_sensitivity > 1_000_000 {", replace="        if new_sensitivity > 10_000_000 {")]),
+]
